@@ -25,7 +25,11 @@ Print Assumptions C18_frames.
 
 (* A connection that ends after t bytes: the reading codec returns exactly the frames
    that arrived whole, then the clean end (cut between two frames) or an error (cut
-   inside a frame) — never a fabricated or partial frame. *)
+   inside a frame) — never a fabricated or partial frame.
+   Limit of the [codeword] hypothesis: a bare json number is delimited by the next byte
+   OR by the end of the stream (as in encoding/json), so a connection that ends inside a
+   top-level number body (GoRpc/json, reply of type int) is read as the shorter number;
+   the harness keeps such cut points out of the correspondence and counts them. *)
 Theorem C18_truncated : forall (complete : list N -> bool) (k : rpckind) (rc : nat) (sc : list nat)
     (frames : list (list (list N))) (t : nat),
   Forall (conforms complete (shape_of k)) frames ->
